@@ -543,8 +543,8 @@ func goroutinePrivateSlots(p *Prog, name string) *RuleResult {
 }
 
 var goSlotExceptions = ExcTable{
-	"linker.(*linkerContext).computeCrossChunkDependencies$1 captured object c":   "one goroutine per chunk; it rewrites import records of the files in chunk.filesWithPartsInChunk, and a JS file is a member of exactly one chunk (decided by C10/R1 single-membership), so no two instances touch the same file",
-	"renamer.(*NumberRenamer).AssignNamesByScope$1 captured object r":              "one goroutine per source index; it names the symbols of that file's nested scopes into r.names[ref.SourceIndex][...], and every symbol declared in a file's scopes carries that file's source index, so the outer index is the goroutine's own",
+	"linker.(*linkerContext).computeCrossChunkDependencies$1 captured object c": "one goroutine per chunk; it rewrites import records of the files in chunk.filesWithPartsInChunk, and a JS file is a member of exactly one chunk (decided by C10/R1 single-membership), so no two instances touch the same file",
+	"renamer.(*NumberRenamer).AssignNamesByScope$1 captured object r":           "one goroutine per source index; it names the symbols of that file's nested scopes into r.names[ref.SourceIndex][...], and every symbol declared in a file's scopes carries that file's source index, so the outer index is the goroutine's own",
 }
 
 // blockInLoop: b lies on a CFG cycle.
